@@ -88,3 +88,43 @@ theorem pyInt_congr {s s' : Bytes} (h : lower s = lower s') : pyInt s = pyInt s'
   rw [← pyInt_lower s, ← pyInt_lower s', h]
 
 end QcelVerif.PStr
+
+/-! ### the packed representation is faithful -/
+namespace QcelVerif.PStr
+
+def packFrom (a : Nat) (s : Bytes) : Nat := s.foldl (fun a b => a * 256 + b) a
+
+theorem pack_eq_packFrom (s : Bytes) : pack s = packFrom 1 s := rfl
+
+theorem unpackAux_one (fuel : Nat) (acc : Bytes) : unpackAux fuel 1 acc = acc := by
+  cases fuel <;> simp [unpackAux]
+
+theorem unpackAux_packFrom : ∀ (t : Bytes) (a fuel : Nat) (acc : Bytes), 1 ≤ a → (∀ b ∈ t, b < 256) →
+    unpackAux (fuel + t.length) (packFrom a t) acc = unpackAux fuel a (t ++ acc)
+  | [], a, fuel, acc, _, _ => by simp [packFrom]
+  | x :: t, a, fuel, acc, ha, hb => by
+      have hx : x < 256 := hb x (by simp)
+      have ht : ∀ b ∈ t, b < 256 := fun b h => hb b (by simp [h])
+      have ih := unpackAux_packFrom t (a * 256 + x) (fuel + 1) acc (by omega) ht
+      have e : fuel + (x :: t).length = fuel + 1 + t.length := by simp; omega
+      have h1 : ¬ (a * 256 + x ≤ 1) := by omega
+      have hd : (a * 256 + x) / 256 = a := by omega
+      have hm : (a * 256 + x) % 256 = x := by omega
+      rw [e, show packFrom a (x :: t) = packFrom (a * 256 + x) t from rfl, ih]
+      simp only [unpackAux, h1, ↓reduceIte, hd, hm, List.cons_append]
+
+/-- **`unpack ∘ pack = id`** for byte strings of at most 96 bytes: the single-`Nat` encoding of strings
+used by all table theorems loses nothing (and `pack` is therefore injective on them). -/
+theorem unpack_pack (s : Bytes) (hb : ∀ b ∈ s, b < 256) (hl : s.length ≤ 96) : unpack (pack s) = s := by
+  have h := unpackAux_packFrom s 1 (96 - s.length) [] (by omega) hb
+  have e : 96 - s.length + s.length = 96 := by omega
+  rw [e, unpackAux_one] at h
+  simpa [unpack, pack_eq_packFrom] using h
+
+theorem pack_injective (s t : Bytes) (hs : ∀ b ∈ s, b < 256) (ht : ∀ b ∈ t, b < 256)
+    (ls : s.length ≤ 96) (lt : t.length ≤ 96) (h : pack s = pack t) : s = t := by
+  rw [← unpack_pack s hs ls, ← unpack_pack t ht lt, h]
+
+example : unpack (pack [75, 114, 56, 52]) = [75, 114, 56, 52] := by decide   -- "Kr84"
+
+end QcelVerif.PStr
